@@ -870,3 +870,49 @@ func SiblingFont(f *type1.Font, k int) *type1.Font {
 	}
 	return &g
 }
+
+// TinyFont writes a complete font program by hand (no eexec section, glyphs as
+// hexadecimal string literals), between about 250 and 800 bytes long: small
+// enough for a whole file to fit into whatever a reader peeks at or buffers
+// first.
+func TinyFont(t *sim.Tape) []byte {
+	var sb strings.Builder
+	name := []string{"Tiny", "T", "Tiny-BoldItalic"}[t.Choose(3)]
+	sb.WriteString([]string{"%!PS-AdobeFont-1.0: " + name + " 001.000\n", "%!FontType1-1.0: " + name + "\n", "%!\n", "%!PS-AdobeFont-1.0: " + name + " 001.000\r\n%%Title: " + name + "\r\n"}[t.Choose(4)])
+	nl := []string{"\n", " ", "\r\n"}[t.Choose(3)]
+	sb.WriteString("11 dict begin" + nl + "/FontType 1 def" + nl + "/FontName /" + name + " def" + nl)
+	if t.Bool(1, 2) {
+		fmt.Fprintf(&sb, "/FontInfo 3 dict dup begin /ItalicAngle %d def /isFixedPitch %v def end def%s", -t.Choose(20), t.Bool(1, 2), nl)
+	} else {
+		sb.WriteString("/FontInfo 1 dict def" + nl)
+	}
+	sb.WriteString("/FontMatrix [0.001 0 0 0.001 0 0] def" + nl)
+	if t.Bool(1, 2) {
+		sb.WriteString("/Encoding StandardEncoding def" + nl)
+	} else {
+		sb.WriteString("/Encoding 256 array 0 1 255 {1 index exch /.notdef put} for dup 65 /A put def" + nl)
+	}
+	sb.WriteString("/Private 2 dict dup begin /BlueValues [] def")
+	if t.Bool(1, 3) {
+		sb.WriteString(" /StdHW [ 50 ] def")
+	}
+	sb.WriteString(" end def" + nl)
+	n := t.Choose(4)
+	fmt.Fprintf(&sb, "/CharStrings %d dict dup begin%s", n+1, nl)
+	for i := 0; i < n; i++ {
+		cs := append(append(t1Int(t.Choose(60)), t1Int(300+t.Choose(600))...), 13) // sbx wx hsbw
+		if t.Bool(1, 2) {
+			cs = append(append(append(cs, t1Int(t.Choose(100))...), t1Int(t.Choose(100))...), 21) // rmoveto
+			cs = append(append(cs, t1Int(100+t.Choose(400))...), 6)                                // hlineto
+			cs = append(append(cs, t1Int(50+t.Choose(400))...), 7)                                 // vlineto
+			cs = append(cs, 9)                                                                     // closepath
+		}
+		cs = append(cs, 14)
+		fmt.Fprintf(&sb, "/%s <%x> def%s", []string{"A", ".notdef", "space", "B"}[i], csObfuscate(cs), nl)
+	}
+	sb.WriteString("end def" + nl + "currentdict end" + nl + "/" + name + " exch definefont pop" + nl)
+	if t.Bool(1, 3) {
+		sb.WriteString("% " + strings.Repeat("padding ", t.Choose(40)) + "\n")
+	}
+	return []byte(sb.String())
+}
